@@ -51,6 +51,7 @@ def merge_corpus(tier):
         ("l", (("m", (("v", "x"),)), rec(1, "y"))),       # missing identity
         ("l", (rec(1, "x"), rec(1, "x"))),
         ("l", (rec(1, "x"), 5)),
+        ("l", (rec(1, "x"), ("m", ((2, "x"),)))),    # non-text key, no identity
     ]
     docs += aohs
     for a in aohs[:4]:
@@ -67,6 +68,11 @@ def merge_corpus(tier):
     docs.append(("m", (("a", ("m", (("c", 3), ("a", 9)))),)))
     docs.append(("s", ("x", "y")))
     docs.append(("s", ("y", "z")))
+    # keys with capitals (rule paths are case-sensitive)
+    docs.append(("m", (("A", ("l", (1, 2))), ("a", ("l", (1, 2))))))
+    docs.append(("m", (("A", ("l", (2, 3))), ("a", ("l", (2, 3))))))
+    docs.append(("m", (("A", ("m", (("K", 1),))),)))
+    docs.append(("m", (("A", ("m", (("K", 2), ("k", 3)))),)))
     # twin nodes: equal values under the same key name in different parents
     # (a per-path rule must apply to the addressed one only)
     for hv in (("l", ("x",)), ("l", (1, 2)), ("m", (("k", 1),))):
@@ -77,6 +83,11 @@ def merge_corpus(tier):
                                ("d", ("m", (("h", hv), ("t", 2)))))))
             docs.append(("m", (("p", ("m", (("h", hw), ("t", 1)))),
                                ("d", ("m", (("h", hw), ("t", 2)))))))
+            # ... and in parents that are themselves equal
+            docs.append(("m", (("p", ("m", (("h", hv),))),
+                               ("d", ("m", (("h", hv),))))))
+            docs.append(("m", (("p", ("m", (("h", hw),))),
+                               ("d", ("m", (("h", hw),))))))
     seen = set()
     out = []
     for d in docs:
@@ -101,6 +112,7 @@ def plan(tier):
                     {"rules": {"/p/h": "left"}},
                     {"rules": {"/d/h": "right"}},
                     {"rules": {"/a": "left"}},
+                    {"rules": {"/A": "right", "/A/K": "left"}},
                     {"keys": {"/a": "v"}}]
     else:
         LEFTS = docs
@@ -115,7 +127,8 @@ def plan(tier):
                     {"keys": {"/": "v"}},
                     {"rules": {"/p/h": "left"}},
                     {"rules": {"/d/h": "right"}},
-                    {"rules": {"/p/h": "unique", "/d": "left"}}]
+                    {"rules": {"/p/h": "unique", "/d": "left"}},
+                    {"rules": {"/A": "right", "/A/K": "left"}}]
     bounds = {"left_documents": len(LEFTS), "right_documents": len(RIGHTS),
               "policy_vectors": len(POLICIES), "rule_sets": len(RULESETS),
               "policy_space": "3x4x5x3 = 180" if tier != "quick" else
